@@ -408,6 +408,14 @@ CORPUS.append(
      ["r", "SI0", 0, 0, 6], ["w", "SI0", 1, "aa", 1, "0102030405"], ["l", "SI0"], ["w", "SI0", 1, "aa", 0, "00"], ["l", "SI0"]])
 
 
+# seed C31-d: a re-sent chunk that lies entirely inside data already received is still compared with it — altered bytes
+# are a conflict (409 / ConflictingWriteError) on both paths, an identical re-send is accepted; the share keeps its bytes
+CORPUS.append(
+    [["c", "SI0", [0], 6, "aa", "L0", "L1"], ["w", "SI0", 0, "aa", 0, "00010203"], ["w", "SI0", 0, "aa", 1, "ffee"],
+     ["w", "SI0", 0, "aa", 1, "0102"], ["w", "SI0", 0, "aa", 0, "00010203"], ["w", "SI0", 0, "aa", 3, "ff"],
+     ["w", "SI0", 0, "aa", 4, "0405"], ["r", "SI0", 0, 0, 6]])
+
+
 def instantiate(corpus_hist, rng):
     from allmydata.storage.common import si_b2a
     names = {"SI0": si_b2a(rbytes(rng, 16)).decode(), "SI1": si_b2a(rbytes(rng, 16)).decode(),
